@@ -55,7 +55,7 @@ FragKinds ==
      helper_arity |-> 1, callback_arg |-> 1, return_classes |-> 1, return_metaclass |-> 0,
      \* version_info_compare: regression generator of a repaired crash; paramspec_alias: confined to a kind of its own because
      \* the tree deviates on it (Dev_ParamSpecSubstitution below)
-     version_info_compare |-> 1, paramspec_alias |-> 1,
+     version_info_compare |-> 1, paramspec_alias |-> 1, unhashable_ops |-> 1,
      \* the inputs of four repaired crashes (kept as regression generators)
      match_value_dotted |-> 0, recursive_str_alias |-> 0, pure_call_raises |-> 1]
 
@@ -289,6 +289,33 @@ KPickIndex ==
 KNext == KPickFamily \/ KPickIndex
 
 (***************************************************************************)
+(* D*: declaration-level class bodies.  The class statement sits at module *)
+(* level, so the class is a real object when the module is checked and the *)
+(* declaration-level machinery runs (duplicate enum members, dataclass /   *)
+(* NamedTuple / TypedDict / Protocol synthesis).  A case is a declaration  *)
+(* kind and the value written into it (harness/c12_decls.py renders it);   *)
+(* the values include the nominally-hashable-but-unhashable ones (a tuple  *)
+(* holding a list / dict / set, a frozen dataclass with a list field) and  *)
+(* objects whose __hash__ / __eq__ raise.  A module CPython refuses to     *)
+(* import is outside the domain (recorded as a skipped check).             *)
+(***************************************************************************)
+DKinds == {"enum", "enum_dup", "enum_dup_mixed", "enum_two_targets", "intenum", "intflag", "flag", "strenum",
+           "enum_tuple_init", "enum_methods", "enum_new", "enum_auto", "enum_annotated", "enum_unique",
+           "enum_functional", "enum_nested", "enum_by_call", "enum_subclass", "enum_in_function", "dc_default",
+           "dc_field_default", "dc_factory", "dc_classvar", "dc_frozen", "dc_options", "dc_inherit",
+           "namedtuple_class", "namedtuple_functional", "typeddict_class", "typeddict_functional", "protocol",
+           "plain_class", "module_const"}
+DValues == {"int", "bool", "float", "str", "bytes", "none", "nan", "tuple", "tup_list", "tup_dict", "tup_set",
+            "tup_nested", "tup_hashraises", "list", "dict", "set", "frozenset", "lambda", "cls",
+            "hash_typeerror", "hash_runtimeerror", "eqraises", "frozen_dc", "auto", "call", "tup_empty"}
+VARIABLES dcase, dstage
+dvars == <<dcase, dstage>>
+DInit == dcase = [kind |-> "none", v |-> "none"] /\ dstage = "kind"
+DPickKind == dstage = "kind" /\ \E k \in DKinds : dcase' = [dcase EXCEPT !.kind = k] /\ dstage' = "value"
+DPickValue == dstage = "value" /\ \E v \in DValues : dcase' = [dcase EXCEPT !.v = v] /\ dstage' = "done"
+DNext == DPickKind \/ DPickValue
+
+(***************************************************************************)
 (* The output automaton                                                    *)
 (***************************************************************************)
 \* d = [code, haspos, lineno, col, msglen, ...]; file = the position model's lines; codes = registered error codes
@@ -327,4 +354,13 @@ TypeOK == life \in {"Start", "Diags", "Done"} /\ ndiags \in Nat
 Dev_ParamSpecSubstitution(f, d) ==
     /\ d.code = "internal_error" /\ f.kind = "paramspec_alias"
     /\ d.exck = "AssertionError" /\ d.site = "signature.py:substitute_typevars"
+\* value.py:1208-1212 SequenceValue.make_or_known and name_check_visitor.py:3272-3275 visit_Dict build a set / look a key
+\* up in a dict of the known objects and catch TypeError only: a display `{X}` / `{X: 1}` of a known object whose
+\* __hash__ raises anything else (directly or through a tuple / NamedTuple / frozen dataclass holding it) crashes.
+\* (the same mechanism as the repaired known-value-hash-exception-propagates, at two further sites)
+HashDisplayExc == "Internal error: RuntimeError('__hash__ raises')"
+Dev_HashExceptionInDisplay(c, d) ==
+    /\ d.code = "internal_error" /\ d.exc = HashDisplayExc
+    /\ d.site \in {"value.py:make_or_known", "name_check_visitor.py:visit_Dict"}
+    /\ c.v \in {"hash_runtimeerror", "tup_hashraises"}
 =============================================================================
